@@ -54,6 +54,7 @@ type Profile struct {
 	UnregInCbPct       int
 	MaxBatchNew        int
 	ShrinkLockedOK     bool
+	LeakPct            int             // chance that a batch-creation callback opens a query and leaves it open
 	NoShrink           bool            // avoid Shrink entirely (known finding avoid rule)
 	HotFixed           []int           // if set, the hot component set
 	DetShrink          bool            // only Shrink() and Shrink(0): time-limited Shrink stops at a wall-clock dependent point
@@ -576,6 +577,10 @@ func (g *Gen) make(k Kind) *Op {
 		}
 		op.Vals = g.vals(len(op.Add))
 		op.Rels = g.relsFor(op.Add, -2)
+		if k == KNewBatch && P.LeakPct > 0 && R.Chance(P.LeakPct) {
+			// a query opened inside the creation callback and left open past the operation
+			op.Leak = g.make(KOpenQuery)
+		}
 	case KAdd:
 		e, ok := g.pickAlive()
 		if !ok {
